@@ -252,11 +252,11 @@ def vec_split_off(c):
     at = c.num(c.args[1], 1)
     c.require_ge(ln - at, "split_off", "at <= len")
     cur = c.deref(c.args[0])
-    cp = cur.content() if isinstance(cur, Seq) and cur.content() is not None and cur.content()[0] != "cat" else None
+    cp = cur.content() if isinstance(cur, Seq) else None
     if isinstance(c.args[0], Ref):
-        c.it.store(c.st, c.args[0].cell, c.args[0].path, Seq(at, None, cur.items if isinstance(cur, Seq) else None, None, cp))
+        c.it.store(c.st, c.args[0].cell, c.args[0].path, Seq(at, None, cur.items if isinstance(cur, Seq) else None, None, src_window(cp, ln, Lin.const(0))))
         c.it.note_mutation(c.st, c.args[0], "split_off")
-    return [(c.st, Seq(ln - at, None, None, None, (cp[0], cp[1] + at) if cp else None))]
+    return [(c.st, Seq(ln - at, None, None, None, src_window(cp, ln, at)))]
 
 
 @model(r"^std::vec::Vec::<.*>::drain::<std::ops::(RangeTo|Range|RangeFrom|RangeFull)<usize>>$")
@@ -269,13 +269,13 @@ def vec_drain(c):
     c.require_ge(hi - lo, "drain:order", "drain: start <= end")
     c.require_ge(ln - hi, "drain:end", "drain: end <= len")
     cur = c.deref(c.args[0])
-    cp = cur.content() if isinstance(cur, Seq) and cur.content() is not None and cur.content()[0] != "cat" else None
+    cp = cur.content() if isinstance(cur, Seq) else None
     front = c.st.sys.entails_eq(lo)
     if isinstance(c.args[0], Ref):
-        newsrc = (cp[0], cp[1] + hi) if (cp and front) else None
+        newsrc = src_window(cp, ln, hi) if front else None
         c.it.store(c.st, c.args[0].cell, c.args[0].path, Seq(ln - hi + lo, None, None, None, newsrc))
         c.it.note_mutation(c.st, c.args[0], "drain")
-    return [(c.st, Iter(hi - lo, False, "drain", None, Seq(Lin.const(0), None, None, None, (cp[0], cp[1] + lo) if cp else None)))]
+    return [(c.st, Iter(hi - lo, False, "drain", None, Seq(Lin.const(0), None, None, None, src_window(cp, ln, lo))))]
 
 
 @model(r"^<std::vec::Drain<.*> as std::iter::Iterator>::collect::<std::vec::Vec<.*>>$")
@@ -428,8 +428,13 @@ def index(c):
         what = "%s index" % kind
         src = c.deref(c.args[0])
         vw = src.view if isinstance(src, Seq) else None
-        cp = src.src if isinstance(src, Seq) and src.src is not None and src.src[0] != "cat" else None
-        sub = lambda n_, o_: Seq(n_, None, None, (vw[0], vw[1] + o_) if vw is not None else None, (cp[0], cp[1] + o_) if (cp is not None and vw is None) else None)
+        cp = src.src if isinstance(src, Seq) else None
+        if vw is None and isinstance(src, Seq) and c.it.track_content and re.search(r"IndexMut<", c.name) and isinstance(c.args[0], Ref):
+            from absint.models_content import container_of, cell_view_id
+            got = container_of(c, c.args[0])
+            if got is not None:
+                vw = (cell_view_id(c.it, got[0], got[1]), Lin.const(0))
+        sub = lambda n_, o_: Seq(n_, None, None, (vw[0], vw[1] + o_) if vw is not None else None, src_window(cp, ln, o_) if vw is None else None)
         if lo is not None and hi is not None:
             c.require_ge(hi - lo, "index:order", "%s: start <= end" % what)
             c.require_ge(ln - hi, "index:end", "%s: end <= len" % what)
@@ -481,8 +486,8 @@ def slice_get(c):
         vs = set(ln.t) | set(hi0.t) | set(lo0.t)
         if not s_ok.sys.bottom and c.it.feasible_wrt(s_ok, vs):
             vw = src.view if isinstance(src, Seq) else None
-            cp = src.src if isinstance(src, Seq) and src.src is not None and src.src[0] != "cat" and vw is None else None
-            sub = Seq(hi0 - lo0, None, None, (vw[0], vw[1] + lo0) if vw else None, (cp[0], cp[1] + lo0) if cp else None)
+            cp = src.src if isinstance(src, Seq) and vw is None else None
+            sub = Seq(hi0 - lo0, None, None, (vw[0], vw[1] + lo0) if vw else None, src_window(cp, ln, lo0))
             out.append((s_ok, Enum(OPTION, {1: Struct({0: sub})})))
         if not (c.st.sys.entails_ge(hi0 - lo0) and c.st.sys.entails_ge(ln - hi0)):
             s_no = c.st.copy()
@@ -525,7 +530,13 @@ def copy_from_slice(c):
     c.oblige(ok, "copy_from_slice:len", "destination and source lengths are equal",
              None if ok else "cannot show %r == %r" % (c.st.sys.reduce(a), c.st.sys.reduce(b)))
     c.st.sys.add_eq(a - b)
-    c.it.record_write(c.st, c.deref(c.args[0]), Lin.const(0), a, "data")
+    dst = c.deref(c.args[0])
+    if isinstance(dst, Seq) and dst.view is not None and str(dst.view[0]).startswith("@"):
+        from absint.models_content import patch_container
+        sv = c.deref(c.args[1])
+        patch_container(c.it, c.st, dst.view, Lin.const(0), a, ("src", sv.content() if isinstance(sv, Seq) and sv.content() is not None else ("unknown:copy", Lin.const(0))))
+        return [(c.st, Struct())]
+    c.it.record_write(c.st, dst, Lin.const(0), a, "data")
     return [(c.st, Struct())]
 
 
@@ -536,8 +547,8 @@ def split_at(c):
     c.require_ge(ln - mid, "split_at", "mid <= len")
     src = c.deref(c.args[0])
     vw = src.view if isinstance(src, Seq) else None
-    cp = src.src if isinstance(src, Seq) and src.src is not None and src.src[0] != "cat" and vw is None else None
-    return [(c.st, Struct({0: Seq(mid, None, None, vw, cp), 1: Seq(ln - mid, None, None, (vw[0], vw[1] + mid) if vw else None, (cp[0], cp[1] + mid) if cp else None)}))]
+    cp = src.src if isinstance(src, Seq) and vw is None else None
+    return [(c.st, Struct({0: Seq(mid, None, None, vw, src_window(cp, ln, Lin.const(0))), 1: Seq(ln - mid, None, None, (vw[0], vw[1] + mid) if vw else None, src_window(cp, ln, mid))}))]
 
 
 @model(r"^core::slice::<impl \[.*\]>::(fill|reverse|sort|sort_unstable|swap_with_slice)$")
@@ -579,8 +590,8 @@ def iter_enumerate(c):
 def iter_zip(c):
     a, b = c.deref(c.args[0]), c.deref(c.args[1])
     if isinstance(a, Iter) and isinstance(b, Iter):
-        ia = a.items if isinstance(a.items, V) and not isinstance(a.items, Empty) else TOP
-        ib = b.items if isinstance(b.items, V) and not isinstance(b.items, Empty) else TOP
+        ia = summ(a.items) if isinstance(summ(a.items), V) and not isinstance(a.items, Empty) else TOP
+        ib = summ(b.items) if isinstance(summ(b.items), V) and not isinstance(b.items, Empty) else TOP
         return [(c.st, Iter(a.len, False, "zip", None, Struct({0: ia, 1: ib})))]
     for x in c.args:
         c.escape(x)
@@ -613,6 +624,18 @@ def std_iter_next(c):
         rt = c.ret_ty()
         # Some((i, elem))
         return [(c.st, none), (st2, Enum(OPTION, {1: Struct({0: Struct({0: i, 1: TOP})})}))]
+    if isinstance(v, Iter) and not v.enumerated and is_listed(v.items) and isinstance(c.args[0], Ref) and not v.maps:
+        # an explicit list of elements: handed out one by one, in order
+        idx = sorted(v.items.f)
+        if not idx:
+            return [(c.st, none)]
+        rest = Iter(Lin.const(len(idx) - 1), False, v.kind, None, Struct({i: v.items.f[i] for i in idx[1:]}, tag="elems"))
+        c.it.store(c.st, c.args[0].cell, c.args[0].path, rest)
+        from absint.interp import event
+        event(c.st, "next", idx[0])
+        return [(c.st, Enum(OPTION, {1: Struct({0: v.items.f[idx[0]]})}))]
+    if isinstance(v, Iter) and is_listed(v.items):
+        v = Iter(v.len, v.enumerated, v.kind, v.chunk, summ(v.items), v.maps)
     if isinstance(v, Iter) and not v.enumerated and v.kind in ("iter", "vec") and isinstance(c.args[0], Ref) and not v.maps:
         # exact-size iterator: Some consumes one item, None means exhausted
         st2 = c.st.copy()
@@ -650,7 +673,7 @@ def byteorder_rw(c):
     if m.group(1) == "read":
         d = c.deref(c.args[0])
         w = d.content() if isinstance(d, Seq) else None
-        if w is not None and w[0] != "cat":
+        if src_atom(w):
             # the same bytes read twice give the same number: one variable per (buffer, offset, width)
             name = "rd%d@%s+%r" % (n * 8, w[0], c.st.sys.reduce(w[1]))
             t = c.ret_ty()
@@ -660,7 +683,13 @@ def byteorder_rw(c):
             c.it.purefun[name] = set(w[1].t)
             return [(c.st, Num(e))]
         return [(c.st, c.top_ret())]
-    c.it.record_write(c.st, c.deref(c.args[0]), Lin.const(0), Lin.const(n), "data")
+    dst = c.deref(c.args[0])
+    if isinstance(dst, Seq) and dst.view is not None and str(dst.view[0]).startswith("@"):
+        from absint.models_content import patch_container
+        val = c.args[1] if len(c.args) > 1 else None
+        patch_container(c.it, c.st, dst.view, Lin.const(0), Lin.const(n), ("be", n, val.e if isinstance(val, Num) else None))
+        return [(c.st, Struct())]
+    c.it.record_write(c.st, dst, Lin.const(0), Lin.const(n), "data")
     return [(c.st, Struct())]
 
 
@@ -1202,7 +1231,7 @@ def slice_map_sum(c):
 def vec_iter_map(c):
     v = c.args[0]
     if isinstance(v, Iter) and (v.items is not None or c.name.startswith("<std::slice::")):
-        return [(c.st, Iter(v.len, v.enumerated, v.kind, v.chunk, v.items, v.maps + (c.args[1],)))]
+        return [(c.st, Iter(v.len, v.enumerated, v.kind, v.chunk, summ(v.items), v.maps + (c.args[1],)))]
     c.escape(c.args[1])
     return [(c.st, c.top_ret())]
 
@@ -1270,6 +1299,8 @@ def iter_adaptor(c):
     m = re.search(r" as std::iter::Iterator>::(\w+)(::<.*>)?$", c.name)
     op = m.group(1) if m else None
     v = c.args[0] if c.args else None
+    if isinstance(v, Iter) and is_listed(v.items) and op not in ("copied", "cloned", "peekable"):
+        v = Iter(v.len, v.enumerated, v.kind, v.chunk, summ(v.items), v.maps)
     if isinstance(v, Iter) and op in ("copied", "cloned", "rev", "peekable", "filter", "filter_map", "take", "skip", "take_while", "skip_while", "step_by",
                                       "collect", "count", "enumerate"):
         # adaptors over a sequence iterator with a known number of remaining items
@@ -1364,4 +1395,5 @@ def cflow(c):
     return [(c.st, c.top_ret())]
 
 
-import absint.models_std2      # noqa: E402  (registers further models; needs M)
+import absint.models_std2
+import absint.models_content      # noqa: E402  (registers further models; needs M)
